@@ -379,9 +379,11 @@ func getEnv(backend string, shadow bool) (*dbEnv, error) {
 		if initErr != nil {
 			return
 		}
-		// fstree stages its writes in os.TempDir() if that is on the same mount: keep that on the memory file system too
-		_ = os.MkdirAll(filepath.Join(rootDir, "tmp"), 0o755)
-		_ = os.Setenv("TMPDIR", filepath.Join(rootDir, "tmp"))
+		// fstree stages its writes in os.TempDir() if that is on the same mount as the database, otherwise in the
+		// record's own directory. Point TMPDIR at a directory that does not exist: staging then always happens next to
+		// the record (no probing of /tmp on disk for every write, and no cross-directory renames, which serialise all
+		// processes on one file system wide lock).
+		_ = os.Setenv("TMPDIR", filepath.Join(rootDir, "no-such-dir"))
 		initErr = database.InitializeWithPath(rootDir)
 	})
 	if initErr != nil {
@@ -995,8 +997,29 @@ type running struct {
 	history   []string
 }
 
-// runHistory replays hist on a wiped database of cfg and on the model.
+// starved reports whether a violation stems from one of the implementation's own wall-clock timeouts
+// (query executors give up when the consumer does not take a record within 1 s, PutMany when no record
+// arrives within 1 s). The harness always drains and feeds immediately, so these can only fire when the
+// process is starved of CPU: such a run is inconclusive, never a finding.
+func starved(v *violation) bool {
+	return v != nil && v.clause != "ENGINE" && strings.Contains(v.detail, "timeout")
+}
+
+// runHistory runs runHistoryOnce and repeats an inconclusive (starved) run.
 func runHistory(cfg config, seed seedDef, ops []opDef, hist []int, wantKey, verbose bool) (out runOut) {
+	for attempt := 0; attempt < 4; attempt++ {
+		out = runHistoryOnce(cfg, seed, ops, hist, wantKey, verbose)
+		if !starved(out.viol) {
+			return out
+		}
+		time.Sleep(time.Duration(attempt+1) * 200 * time.Millisecond)
+	}
+	out.viol = &violation{clause: "ENGINE", detail: "a wall-clock timeout inside portbase fired in 4 attempts (machine overloaded?): " + out.viol.detail}
+	return out
+}
+
+// runHistoryOnce replays hist on a wiped database of cfg and on the model.
+func runHistoryOnce(cfg config, seed seedDef, ops []opDef, hist []int, wantKey, verbose bool) (out runOut) {
 	progress.Add(1)
 	env, err := getEnv(cfg.Backend, cfg.Shadow)
 	if err != nil {
@@ -1457,8 +1480,10 @@ func shardWork(c *vlib.Ctx, cfgs []config, opsFor func(config) []opDef) {
 				out = append(out, succ{ni, -1, r.key, r.nontriv})
 				continue
 			}
-			// badger is slow (about 1 ms per transaction): its histories end one step earlier
-			last := lf.Last || (cfg.Backend == "badger" && lf.Depth >= lf.Max-1)
+			// slow configurations end one step earlier: badger (about 1 ms per transaction) always, fstree behind a
+			// cache (about 100 system calls per probe) in the quick tier
+			shallow := cfg.Backend == "badger" || (c.Quick() && cfg.Backend == "fstree" && cfg.Cache != "none")
+			last := lf.Last || (shallow && lf.Depth >= lf.Max-1)
 			if lf.Last {
 				c.ExtraAdd("deepest_level_nodes_expanded", 1)
 			}
@@ -1565,7 +1590,9 @@ func main() {
 		c.Assume("a backend that does not implement Purge / PutMany and answers ErrNotImplemented is taken as 'operation not offered' (no effect in the model); the count returned by Purge may or may not include expired records that were not yet deleted")
 		c.Assume("databases are reused between histories by wiping all records (hashmap: new map; bbolt: bucket dropped and re-created; fstree: directory emptied; badger: all keys deleted); the read cache's clock is replaced by the manual clock so that cache TTLs and record expiry run on the same clock, as they do in production")
 		c.Assume("the interface holds all permissions (Local+Internal), as PutMany and delayed writes require; permission clauses belong to C03. Through a delayed write cache, only Get/Put/PutNew/Resave/Delete/Flush/time are offered while a delayed write is pending; every other operation and all queries run after a flush")
+		c.Assume("portbase's own wall-clock timeouts (query executors: consumer must take a record within 1 s; PutMany: next record within 1 s) can only fire here when the process is starved of CPU, as the harness drains and feeds immediately; such a run is repeated (4 attempts) and otherwise reported as an engine error, never as a finding")
 		c.Assume("left to engine S: the iterator error hand-over interleaving clause")
+		c.Extra("depth_note", "history depth = max depth, except one less for badger (thorough) and for fstree behind a read cache in the quick tier")
 
 		if c.Replay != "" {
 			replay(c, opsFor)
